@@ -334,6 +334,13 @@ def run_actions(actions, phase, ctx):
                     time.sleep(0.0005)
                 emit('thread.touched', key=a['ev'], ok=bool(
                     rec.get('touched')))
+        elif do == 'rename_thread':
+            # a long-lived worker that renames itself per job (pool threads)
+            rec = _thread_events.get(a['ev'])
+            if rec is not None and rec.get('thread') is not None and \
+                    not rec.get('released'):
+                rec['thread'].name = a['name']
+                emit('thread.rename', key=a['ev'], name=a['name'], ctx=ctx)
         elif do == 'garbage':
             make_garbage(a)
         elif do == 'uncollectable':
